@@ -3,13 +3,14 @@ package main
 import (
 	"bytes"
 	"encoding/hex"
+	"github.com/pckhoi/meow"
 	"strconv"
 )
 
-func itoa(i int) string       { return strconv.Itoa(i) }
-func newBuf() *bytes.Buffer   { return bytes.NewBuffer(nil) }
-func hx(b []byte) string      { return hex.EncodeToString(b) }
-func unhx(s string) []byte    { b, _ := hex.DecodeString(s); return b }
+func itoa(i int) string     { return strconv.Itoa(i) }
+func newBuf() *bytes.Buffer { return bytes.NewBuffer(nil) }
+func hx(b []byte) string    { return hex.EncodeToString(b) }
+func unhx(s string) []byte  { b, _ := hex.DecodeString(s); return b }
 
 func hxRow(r []string) []string {
 	o := make([]string, len(r))
@@ -25,3 +26,5 @@ func hxRows(rs [][]string) [][]string {
 	}
 	return o
 }
+
+func meowNew() *meow.Digest { return meow.New(0) }
